@@ -70,6 +70,35 @@ def emit_case(kind, self_env, re_list, vals, obs):
         E.lst([E.pstr(s) for s in re_list]), E.lst([E.pval(v) for v in vals]), o)
 
 
+def self_env(fobj, read_by_chain):
+    """The field object as its chain sees it: every attribute the generated chain reads, and every other
+    instance attribute holding a plain value (so that the schema is compared with the object, whatever the
+    chain reads today)."""
+    names = list(read_by_chain)
+    for a in sorted(vars(fobj)):
+        if a not in names:
+            names.append(a)
+    out = []
+    for a in names:
+        r = E.reify(getattr(fobj, a, None))
+        if a in read_by_chain or not _opaque(r):
+            out.append((a, r))
+    return out
+
+
+def _opaque(r):
+    t = r[0]
+    if t == "other":
+        return True
+    if t in ("list", "tuple", "deque"):
+        return any(_opaque(x) for x in r[1])
+    if t == "set":
+        return any(_opaque(x) for x in r[2])
+    if t == "dict":
+        return any(_opaque(k) or _opaque(v) for k, v in r[1])
+    return False
+
+
 class Probe:
     """One real field object of a scalar kind, ready to be run on values."""
 
@@ -81,8 +110,7 @@ class Probe:
         self.cast = cast
         self.C, _ = c18.realise(cast)
         self.fobj = self.C.get_all_fields_by_name()["a"]
-        self.attrs = attrs_by_entry.get(entry_name(self.kind), [])
-        self.self_env = [(a, E.reify(getattr(self.fobj, a, None))) for a in self.attrs]
+        self.self_env = self_env(self.fobj, attrs_by_entry.get(entry_name(self.kind), []))
 
     def run(self, r):
         """Observed outcome of the real chain on reified value r."""
@@ -174,7 +202,7 @@ def helper_cases(rep, attrs_by_entry):
     out = []
     for lo, hi in [(None, None), (1, None), (None, 2), (2, 3), (0, 0)]:
         fobj = Array(minItems=lo, maxItems=hi)
-        env = [(a, E.reify(getattr(fobj, a, None))) for a in attrs_by_entry.get("SizedCollection.validate_size", [])]
+        env = self_env(fobj, attrs_by_entry.get("SizedCollection.validate_size", []))
         for r in COLLECTION_VALUES:
             try:
                 fobj.validate_size(G.unreify(r, {}), "a")
